@@ -15,7 +15,6 @@ import os
 import shutil
 import subprocess
 import sys
-import xml.etree.ElementTree as ET
 
 VERIF = os.path.dirname(os.path.dirname(os.path.abspath(__file__)))
 PY = "/venv/bin/python"
@@ -73,14 +72,10 @@ def main():
             return 1
         if suite:
             base = json.load(open("/root/.vp/BASELINE.json"))
-            xml = f"/tmp/confirm/{sid}.junit.xml"
-            t = sh([PY, "-m", "pytest", "-ra", "-q", "-p", "no:cacheprovider", "--timeout=900",
-                    "--continue-on-collection-errors", f"--junitxml={xml}"], env=env, cwd=wt, timeout=7200)
-            passed = set()
-            for tc in ET.parse(xml).getroot().iter("testcase"):
-                if not any(ch.tag in ("failure", "error", "skipped") for ch in tc):
-                    passed.add(f"{tc.get('classname')}::{tc.get('name')}")
-            os.remove(xml)
+            sys.path.insert(0, os.path.join(VERIF, "tools"))
+            import run_suite
+            # the whole suite (every test file), run as parallel partitions of test files, each in its own copy of the tree
+            passed, _failed = run_suite.run_suite(wt, serial="--serial" in sys.argv)
             head = json.load(open(os.path.join(VERIF, "tools", "head_pass.json")))["passed"]
             missing = sorted((set(base["stable_pass"]) | set(head)) - passed)
             ran["suite"] = {"passed": len(passed), "baseline": len(base["stable_pass"]), "passing_on_repaired_head": len(head),
